@@ -100,7 +100,10 @@ func (x *exec) callFunction(st *State, cs *callSite, fn *ssa.Function, bind []Va
 	x.ctx.Callees[key] = true
 	rt := resultType(fn.Signature)
 	ct := x.e.Specs.Contracts[key]
-	if v := x.e.Specs.Views[x.callerPkg(st)+"|"+key]; v != nil {
+	if v := x.e.Specs.Views["fn:"+x.callerFn(st)+"|"+key]; v != nil {
+		ct = v
+		x.ctx.note("trusted abstract view of " + key + " used at a call site in " + x.callerFn(st))
+	} else if v := x.e.Specs.Views[x.callerPkg(st)+"|"+key]; v != nil {
 		ct = v
 		x.ctx.note("trusted abstract view of " + key + " used at a call site in " + x.callerPkg(st))
 	}
@@ -452,6 +455,14 @@ func paramTypes(fn *ssa.Function, sig *types.Signature, nargs int) []types.Type 
 		ts = append([]types.Type{nil}, ts...)
 	}
 	return ts
+}
+
+func (x *exec) callerFn(st *State) string {
+	fn := st.top().fn
+	for fn.Parent() != nil {
+		fn = fn.Parent()
+	}
+	return CanonKey(fn)
 }
 
 func (x *exec) callerPkg(st *State) string {
